@@ -11,7 +11,7 @@ RULE = (
     "bodies that succeed, set item errors, skip items, raise part-way (Exception/BaseException) or create new items. "
     "Profile Y (yield-only): at every on_before_batch_flush the flushed batch's priority must equal the maximum over "
     "all batches holding an item some reachable task is waiting for (harness knowledge, not scheduler state). "
-    "Profile S (sync re-entry): a flush while the innermost awaited computation (top level or nested sync call) has "
+    "Profile S (sync re-entry, and items whose value() is taken synchronously so that scheduled batches get flushed behind the scheduler's back): a flush while the innermost awaited computation (top level or nested sync call) has "
     "already finished is a violation. Both: per batch at most one before event / one flush body, never empty or "
     "finished; before/after strictly paired; every item completed exactly once, by its own batch's flush, with what "
     "that flush set, and that is what the task received (reference fed with per-flush outcomes). Profile E: the "
@@ -35,7 +35,7 @@ BASE = dict(
     p_try_raise=0.2,
 )
 Y = [gen.profile(kinds=k, **dict(BASE, w_stmt=dict(sync=0, orphan=0.0, raise_=0.1, try_=1.4))) for k in (2, 3, 4)]
-S = [gen.profile(kinds=k, **dict(BASE, w_stmt=dict(sync=2.5, orphan=0.3, raise_=0.1, try_=1.2))) for k in (2, 3)]
+S = [gen.profile(kinds=k, **dict(BASE, w_stmt=dict(sync=2.5, orphan=0.3, raise_=0.1, try_=1.2, syncitem=1.2))) for k in (2, 3)]
 HOWS = ["call", "value", "yielded", "yielded_value"]
 
 
